@@ -24,3 +24,43 @@ Proof.
   - f_equal. revert xs0 E. induction H; destruct xs0; intros E; try discriminate; auto.
     apply andb_true_iff in E. destruct E as [E1 E2]. f_equal; auto.
 Qed.
+
+(* ------------------------------------------------------------------ statements in the form used by Props.v *)
+From Coq Require Import Permutation.
+From Verif.C07 Require Import MapLemmas AltProofs IdxProofs LiveProofs StepProofs RestrProofs.
+
+Lemma perm_same : forall (ord : nat -> list N -> list N),
+  (forall t l, Permutation (ord t l) l) -> forall t l k, In k (ord t l) <-> In k l.
+Proof.
+  intros ord H t l k. split; intros Hin.
+  - apply (Permutation_in k (H t l)). auto.
+  - apply (Permutation_in k (Permutation_sym (H t l))). auto.
+Qed.
+
+Lemma ast_eqb_sound : forall a b, ast_eqb a b = true -> forall L, eval a L = eval b L.
+Proof. intros a b H L. apply ast_eqb_eq in H. subst. auto. Qed.
+
+Theorem index_exact_perm :
+  forall (ord : nat -> list N -> list N) (sel_eqb : ast -> ast -> bool),
+  (forall t l, Permutation (ord t l) l) ->
+  (forall a b, sel_eqb a b = true -> forall L, eval a L = eval b L) ->
+  forall ops s i,
+    let x := run ord sel_eqb ops in
+    rel_mem s i (by_sel x) = want (sp_run ops) s i /\ rel_mem i s (by_item x) = want (sp_run ops) s i.
+Proof.
+  intros ord sel_eqb Hp Hs ops s i x. split.
+  - apply index_exact; auto. apply perm_same. auto.
+  - unfold x. rewrite (transp_run ord sel_eqb ops s i). apply index_exact; auto. apply perm_same. auto.
+Qed.
+
+Theorem parents_live_perm :
+  forall (ord : nat -> list N -> list N) (sel_eqb : ast -> ast -> bool),
+  (forall t l, Permutation (ord t l) l) ->
+  forall ops i it p,
+    let x := run ord sel_eqb ops in
+    nlookup i (items x) = Some it -> In p (it_parents it) ->
+    exists pa l, nlookup p (parents x) = Some pa /\ pa_items pa = Some l /\ memN i l = true.
+Proof.
+  intros ord sel_eqb Hp ops i it p x H1 H2.
+  apply (parents_live_run ord (perm_same ord Hp) sel_eqb ops i it p H1 H2).
+Qed.
